@@ -168,3 +168,95 @@ def affine_of(term, leaf, T):
 def compose(f, g):
     """f after g."""
     return Affine(n_mul(f.A, g.A), n_add(n_mul(f.A, g.B), f.B), f.roundings + g.roundings, f.addsub + g.addsub)
+
+
+# ------------------------------------------------------------------------------------------------
+# exact machine evaluation of the constant part of a multiplicative conversion (round-to-nearest model)
+
+def _pi_machine(T, pt):
+    return rounded_pi(pt if pt in MANT else T)
+
+
+def machine_const(term, T):
+    """Value (exact rational) that IEEE round-to-nearest arithmetic in type T produces for a constant sub-term."""
+    from fractions import Fraction as Fr
+    if isinstance(term, int):
+        return Fr(term)
+    k = term[0]
+    if k == "c":
+        return round_to(term[1], T)
+    if k == "pi":
+        pt = term[1] if len(term) > 1 else T
+        v = rounded_pi(pt if pt in MANT else T)
+        return round_to(v, T)
+    if k == "cast":
+        X = term[1]
+        inner = term[2]
+        if isinstance(inner, tuple) and inner and inner[0] == "c":
+            v = round_to(inner[1], X) if X in MANT else inner[1]
+        else:
+            v = machine_const(inner, X if X in MANT else T)
+        return round_to(v, T)
+    if k == "neg":
+        return -machine_const(term[1], T)
+    if k in ("add", "sub", "mul", "div"):
+        a, b = machine_const(term[1], T), machine_const(term[2], T)
+        if k == "add":
+            r = a + b
+        elif k == "sub":
+            r = a - b
+        elif k == "mul":
+            r = a * b
+        else:
+            if b == 0:
+                raise Inconclusive("constant division by zero")
+            r = a / b
+        return round_to(r, T)
+    if k == "fn" and term[1] == "pow" and len(term) == 4:
+        a = machine_const(term[2], T)
+        e = term[3]
+        e = e if isinstance(e, int) else (int(e[1]) if isinstance(e, tuple) and e[0] == "c" and e[1].denominator == 1 else None)
+        if e is None:
+            raise Inconclusive("pow with non-integer exponent")
+        return round_to(a ** e, T)   # libm pow assumed correctly rounded here; one extra ulp is added by the caller
+    raise Inconclusive("constant sub-term of kind %s" % k)
+
+
+def has_leaf(term, leaf):
+    if isinstance(term, tuple) and term:
+        if term[0] == "leaf":
+            return term[1] == leaf
+        return any(has_leaf(x, leaf) for x in term)
+    return False
+
+
+def uses_pow(term):
+    if isinstance(term, tuple) and term:
+        if term[0] == "fn" and term[1] == "pow":
+            return True
+        return any(uses_pow(x) for x in term)
+    return False
+
+
+def machine_factor(term, leaf, T):
+    """For a purely multiplicative body (value op constants): (effective machine factor as exact rational,
+    number of roundings on the value path, extra ulps for libm calls)."""
+    from fractions import Fraction as Fr
+    if not has_leaf(term, leaf):
+        raise Inconclusive("no value")
+    k = term[0]
+    if k == "leaf":
+        return Fr(1), 0, 0
+    if k == "cast":
+        return machine_factor(term[2], leaf, T)
+    if k in ("mul", "div"):
+        l, r = term[1], term[2]
+        if has_leaf(l, leaf) and not has_leaf(r, leaf):
+            f, n, x = machine_factor(l, leaf, T)
+            c = machine_const(r, T)
+            return (f * c if k == "mul" else f / c), n + 1, x + (1 if uses_pow(r) else 0)
+        if has_leaf(r, leaf) and not has_leaf(l, leaf) and k == "mul":
+            f, n, x = machine_factor(r, leaf, T)
+            c = machine_const(l, T)
+            return f * c, n + 1, x + (1 if uses_pow(l) else 0)
+    raise Inconclusive("value path is not a chain of * and / by constants")
